@@ -984,6 +984,7 @@ func (e *Exec) unop(s *State, x *ssa.UnOp) Value {
 	case token.XOR:
 		return e.ar.BitNot(e.val(s, x.X).(*Node), x.Type())
 	case token.ARROW:
+		e.blockingUnderLock(s, x.Pos(), "channel receive")
 		e.logAbs("channel receive: unconstrained value")
 		t := x.X.Type().Underlying().(*types.Chan).Elem()
 		v := e.freshValue(s, "recv", t)
@@ -1577,4 +1578,14 @@ func (e *Exec) dropPrivObj(s *State, ref *Node) {
 		}
 	}
 	s.privObjs = keep
+}
+
+// blockingUnderLock: with `nonblocking` on a monitor, an operation that may block indefinitely while
+// the mutex is held (every other thread that needs the mutex then waits too) is an obligation failure.
+func (e *Exec) blockingUnderLock(s *State, pos token.Pos, what string) {
+	for _, h := range s.held {
+		if h.Mon != nil && h.Mon.NonBlocking && !h.Inherited {
+			e.addObl(s, e.oblName("monitor/"+h.Key+"/no-blocking-under-lock"), "monitor", Not(s.pc), pos, what+" while holding "+h.Key+" may block every other user of the lock")
+		}
+	}
 }
